@@ -146,6 +146,9 @@ var c18Check = core.Mon(c18, "numeric-builtins", func(w *core.W, c *NumFnCase) {
 	for _, a := range c.Args {
 		d, ok := ref.ParseDec(a)
 		if !ok && !c.Str {
+			d, ok = ref.ParseDec(strings.ReplaceAll(a, "_", "")) // a literal with digit separators
+		}
+		if !ok && !c.Str {
 			w.Skip("unreadable-argument")
 			return
 		}
